@@ -8,6 +8,7 @@ import (
 	"bytes"
 	"encoding"
 	"encoding/binary"
+	"errors"
 	"fmt"
 	"io"
 
@@ -46,10 +47,22 @@ type c08reader struct {
 	b     []byte
 	off   int
 	chunk int
+	end   error // what the reader reports once the input is exhausted (nil = io.EOF)
+}
+
+// c08readerEnd is picked up by every reader created while it is set: the stream then ends with a
+// transport error (reset, closed pipe) instead of a clean EOF.
+var c08readerEnd error
+
+func c08newReader(b []byte, chunk int) *c08reader {
+	return &c08reader{b: b, chunk: chunk, end: c08readerEnd}
 }
 
 func (r *c08reader) Read(p []byte) (int, error) {
 	if r.off >= len(r.b) {
+		if r.end != nil {
+			return 0, r.end
+		}
 		return 0, io.EOF
 	}
 	n := len(p)
@@ -60,6 +73,8 @@ func (r *c08reader) Read(p []byte) (int, error) {
 	r.off += n
 	return n, nil
 }
+
+var errC08Reset = errors.New("transport reset")
 
 const c08maxFrame = 256 * 1024
 
@@ -95,7 +110,7 @@ func c08frameRules(in []byte, consumed int, ok bool) string {
 }
 
 func c08recv(in []byte, chunk int, alloc *allocator) string {
-	r := &c08reader{b: in, chunk: chunk}
+	r := c08newReader(in, chunk)
 	typ, payload, err := recvPacket(r, alloc, 0)
 	if bad := c08frameRules(in, r.off, err == nil); bad != "" {
 		return bad
@@ -116,7 +131,7 @@ func c08recv(in []byte, chunk int, alloc *allocator) string {
 }
 
 func c08fxRaw(in []byte, chunk int) string {
-	r := &c08reader{b: in, chunk: chunk}
+	r := c08newReader(in, chunk)
 	var p sshfx.RawPacket
 	err := p.ReadFrom(r, nil, c08maxFrame)
 	if bad := c08frameRules(in, r.off, err == nil); bad != "" {
@@ -137,7 +152,7 @@ func c08fxRaw(in []byte, chunk int) string {
 }
 
 func c08fxReq(in []byte, chunk int) string {
-	r := &c08reader{b: in, chunk: chunk}
+	r := c08newReader(in, chunk)
 	var p sshfx.RequestPacket
 	err := p.ReadFrom(r, nil, c08maxFrame)
 	if bad := c08frameRules(in, r.off, err == nil); bad != "" {
@@ -151,6 +166,13 @@ func c08twice(f func(chunk int) string) string {
 	a := f(0)
 	if b := f(3); len(b) > 4 && b[:4] == "BAD:" {
 		return b + " (reader delivering 3 bytes per Read)"
+	}
+	// the same bytes followed by a transport error instead of EOF (a panic here is caught by the runner)
+	c08readerEnd = errC08Reset
+	b := f(0)
+	c08readerEnd = nil
+	if len(b) > 4 && b[:4] == "BAD:" {
+		return b + " (stream ending with a transport error)"
 	}
 	return a
 }
